@@ -40,6 +40,8 @@ class AReq:
         self.ows = ows or {}               # index -> (before value, after value)
         self.extra_first = []              # framing-related headers as sent, for the oracle
         self.trailer = b"X-Trailer: v"     # used by chunk_style 4
+        self.te_first = False              # framing "both": Transfer-Encoding before Content-Length
+        self.te_value = "chunked"
 
     def all_headers(self):
         """(name, value) pairs as sent, in order."""
@@ -48,10 +50,12 @@ class AReq:
             hs.append(("Connection", self.conn))
         if self.expect is not None:
             hs.append(("Expect", self.expect))
-        if self.framing in ("cl", "both"):
+        if self.framing in ("cl", "both") and not self.te_first:
             hs.append(("Content-Length", str(len(self.body))))
         if self.framing in ("chunked", "both"):
-            hs.append(("Transfer-Encoding", "chunked"))
+            hs.append(("Transfer-Encoding", self.te_value))
+        if self.framing == "both" and self.te_first:
+            hs.append(("Content-Length", str(len(self.body))))
         if self.framing == "upgrade" and self.conn is None:
             hs.append(("Connection", "Upgrade"))
         return hs
